@@ -5,6 +5,7 @@ import (
 	"os"
 	"path/filepath"
 
+	"github.com/MichaelMure/git-bug/cache"
 	"github.com/MichaelMure/git-bug/entities/bug"
 	"github.com/MichaelMure/git-bug/entities/identity"
 	"github.com/MichaelMure/git-bug/entity"
@@ -45,7 +46,10 @@ type Scenario struct {
 	Idempotent bool // repeating the completed action changes nothing (merge, pull, read, rebuild)
 	NoLoaders  bool // the interrupted run opens the repository without clock loaders
 	Thorough   bool // thorough tier only
-	Act        func(c *Ctx) error
+	// Pull names the entry point of a pull scenario: the interrupted pull is repeated through the
+	// same entry point after the restart and must then bring in everything the remote holds.
+	Pull string
+	Act  func(c *Ctx) error
 }
 
 func resolvers(repo repository.ClockedRepo) entity.Resolvers {
@@ -207,6 +211,32 @@ func scenarios() []Scenario {
 				return err
 			}
 			return bug.Pull(c.Repo, resolvers(c.Repo), remoteName, u)
+		}},
+		// interrupted pull repeated through the SAME entry point; the remote holds a new and an
+		// updated identity, a bug written by the new identity, a new bug and an updated bug
+		{Name: "repeat-pull/identity.Pull", Base: "pullall", Idempotent: true, Pull: "identity.Pull", What: "identity.Pull (fetch + merge of one new and one updated identity)", Act: func(c *Ctx) error {
+			return identity.Pull(c.Repo, remoteName)
+		}},
+		{Name: "repeat-pull/bug.Pull", Base: "pullbugs", Idempotent: true, Pull: "bug.Pull", What: "bug.Pull (fetch + merge of two new bugs, one by a recently pulled identity, and one updated bug)", Act: func(c *Ctx) error {
+			u, err := identity.ReadLocal(c.Raw, c.Meta.UserA)
+			if err != nil {
+				return err
+			}
+			return bug.Pull(c.Repo, resolvers(c.Repo), remoteName, u)
+		}},
+		{Name: "repeat-pull/cache.Fetch+MergeAll", Base: "pullall", Idempotent: true, Pull: "cache.Fetch+MergeAll", What: "what `git bug pull` does: RepoCache.Fetch then the drained RepoCache.MergeAll (identities, then bugs)", Act: func(c *Ctx) error {
+			rc, err := cache.NewRepoCacheNoEvents(c.Repo)
+			if err != nil {
+				return err
+			}
+			_, err = rc.Fetch(remoteName)
+			if err == nil {
+				err = drainMerge(rc.MergeAll(remoteName))
+			}
+			if cerr := rc.Close(); err == nil {
+				err = cerr
+			}
+			return err
 		}},
 		{Name: "merge-identities", Base: "identmerge", Idempotent: true, What: "identity.MergeAll: one new identity, one with a new version, one unchanged", Act: func(c *Ctx) error {
 			return drainMerge(identity.MergeAll(c.Repo, remoteName))
@@ -385,6 +415,53 @@ func buildBase(name, dir string) (Meta, error) {
 			vctl.SetActor("setup/A")
 			_, err = bug.Fetch(w.Repos["A"], remoteName)
 		}
+	case "pullall", "pullbugs":
+		err = steps(nb("A", "shared", 1), push("A"), pull("B"), func() error {
+			vctl.SetActor("setup/B")
+			rb := w.Repos["B"]
+			ub, err := identity.ReadLocal(rb, w.Users["B"])
+			if err != nil {
+				return err
+			}
+			if err := ub.Mutate(rb, func(m *identity.Mutator) { m.Name = "user B, renamed" }); err != nil {
+				return err
+			}
+			if err := ub.Commit(rb); err != nil {
+				return err
+			}
+			uc, err := identity.NewIdentity(rb, "user C", "C@example.org")
+			if err != nil {
+				return err
+			}
+			if err := uc.Commit(rb); err != nil {
+				return err
+			}
+			byC, _, err := bug.Create(uc, now(), "bug by the new identity", "message", nil, nil)
+			if err != nil {
+				return err
+			}
+			if err := byC.Commit(rb); err != nil {
+				return err
+			}
+			b.meta.Bugs["byC"] = byC.Id()
+			_, err = identity.Push(rb, remoteName)
+			return err
+		}, ed("B", "shared"), nb("B", "newB", 1), push("B"), func() error {
+			vctl.SetActor("setup/A")
+			ra := w.Repos["A"]
+			if name == "pullbugs" {
+				// the identities are already here, the bugs are not
+				if err := identity.Pull(ra, remoteName); err != nil {
+					return err
+				}
+			}
+			// an application was used here before: its cache exists
+			rc, err := cache.NewRepoCacheNoEvents(ra)
+			if err != nil {
+				return err
+			}
+			return rc.Close()
+		})
 	case "identmerge":
 		err = steps(nb("A", "bug0", 1), func() error {
 			vctl.SetActor("setup/B")
